@@ -70,7 +70,7 @@ def run(report, db, tier):
     from ..common import borrow
     from . import c03
     borrow(report, 'R11.1v', "the id echoed by the keep-alive / teleport arms survives the VarInt codec: what read returns, send accepts (C03's rules)",
-           lambda rid, c: c.startswith(('read:', 'varlong:', 'send:negative')),
+           lambda rid, c: c.startswith(('read:', 'send:negative')),
            lambda sub: c03.run(sub, db, tier))
     # "under every supported protocol version": the layouts and ids of the
     # packets handled here are chosen by version guards; those follow the
@@ -81,6 +81,12 @@ def run(report, db, tier):
                      'release number)')
     nf = shared.numeric_version_order(report, R9, db, P)
     report.floor('functions scanned for numeric version order', nf, 300)
+    # "for every id value and protocol version": the id's wire type changes
+    # at a development version the changelog dates (C07's reference)
+    from .c07 import check_boundaries, load_ref
+    nb = check_boundaries(report, db, P, load_ref(), rid='R11.1b',
+                          only=lambda b: b['packet'].startswith('keep alive'))
+    report.floor('keep-alive boundary cells', nb, 300)
     # "without disturbing later ones": a frame takes exactly its own bytes
     from .c01 import isolation
     isolation(report, db, cg, S, M, rule_id='R11.3i')
